@@ -1,7 +1,7 @@
 (* Machine.v — the reference machine as a small-step system over explicit configurations, driven
    by the SAME generic interpreter (gexec_insn) instantiated with an unbounded branch stack, and
    the generator judgement [Gen] used by the compiler-correctness induction. *)
-From FR Require Import Base State Utf8 Ast Analyze Sem Vm StateRefine VmRefine.
+From FR Require Import Base State Utf8 Ast Analyze Sem Vm StateRefine VmRefine SemK Det.
 From Coq Require Import Lia NArith.
 
 (* the reference machine without the stack bound *)
@@ -198,6 +198,17 @@ Proof.
     intros n Hn. rewrite !Hf by auto. reflexivity.
   - eexists; split; [reflexivity|]. split; [reflexivity|].
     intros n Hn. rewrite !Hf by auto. reflexivity.
+Qed.
+
+(* a Delegate instruction over a deterministic, capture-free block: one step, the block's result *)
+Lemma step_delegate_det pc ix sl aux K es sg eg : at_ pc (IDelegate es sg eg) -> eg = sg ->
+  forallb det es = true ->
+  exists r, (forall fu g caps, sem cx (Concat es) fu g (ix, caps) = one r caps) /\
+            mstep (Run pc ix sl aux K) = match r with Some j => Run (S pc) j sl aux K | None => Fail K end.
+Proof.
+  intros H -> Hd. rewrite <- det_concat in Hd. destruct (det_sem cx (Concat es) Hd ix) as [r Hr].
+  exists r. split; [exact Hr|]. unfold mstep. rewrite H. cbn [gexec_insn]. unfold oracle.
+  rewrite semk_sem, Hr, Nat.eqb_refl. destruct r; reflexivity.
 Qed.
 
 Definition mk_alt_ (pc ix : nat) (sl aux : list val) : alt := {| a_pc := pc; a_ix := ix; a_slots := sl; a_aux := aux |}.
